@@ -10,14 +10,26 @@ CONSTANTS Vers, LeafOps     \* LeafOps: attribute operations are leaves (edge em
 
 Names1x == {"Name", "Object Group", "Application Specific Information", "Sensitive", "Operation Policy Name",
             "Cryptographic Usage Mask", "State", "Cryptographic Algorithm", "Cryptographic Length", "Initial Date",
-            "Unique Identifier", "Object Type", "Contact Information", "Activation Date", "x-custom"}
-Names20 == Names1x \ {"x-custom", "Contact Information"}
+            "Unique Identifier", "Object Type", "Contact Information", "Activation Date", "x-custom",
+            \* more of the rule table, and names a request can carry although the server has no rule for them
+            "Fresh", "Lease Time", "Deactivation Date", "Process Start Date", "Last Change Date", "Destroy Date",
+            "Archive Date", "Compromise Date", "Certificate Type", "Certificate Length", "Digest", "Link",
+            "Always Sensitive", "Extractable", "Never Extractable", "Original Creation Date"}
+Names20 == Names1x \ {"x-custom", "Contact Information", "Digest", "Link"}
+\* text-valued multi-instance attributes also get the empty value as a third candidate
+TextMulti == {"Name", "Object Group", "Application Specific Information"}
+Cands(n) == IF n \in TextMulti THEN {1, 2, 3} ELSE {1, 2}
 
 \* two candidate values per attribute: one that is already there, one that is new
 Val(n, k) ==
-    CASE n = "Name" -> IF k = 1 THEN "n1" ELSE "n9"
-      [] n = "Object Group" -> IF k = 1 THEN "og1" ELSE "og9"
-      [] n = "Application Specific Information" -> IF k = 1 THEN <<"ns1", "d1">> ELSE <<"ns9", "d9">>
+    CASE n = "Name" -> IF k = 1 THEN "n1" ELSE IF k = 2 THEN "n9" ELSE ""
+      [] n = "Object Group" -> IF k = 1 THEN "og1" ELSE IF k = 2 THEN "og9" ELSE ""
+      [] n = "Application Specific Information" -> IF k = 1 THEN <<"ns1", "d1">> ELSE IF k = 2 THEN <<"ns9", "d9">> ELSE <<"ns1", "">>
+      [] n \in {"Fresh", "Always Sensitive", "Extractable", "Never Extractable"} -> k = 1
+      [] n \in {"Lease Time", "Certificate Length"} -> IF k = 1 THEN 60 ELSE 61
+      [] n \in {"Deactivation Date", "Process Start Date", "Last Change Date", "Destroy Date", "Archive Date",
+                "Compromise Date", "Original Creation Date"} -> 7
+      [] n = "Certificate Type" -> "X_509"
       [] n = "Sensitive" -> k = 1
       [] n = "Operation Policy Name" -> IF k = 1 THEN "default" ELSE "public"
       [] n = "Cryptographic Usage Mask" -> IF k = 1 THEN <<"ENCRYPT">> ELSE <<"ENCRYPT", "SIGN">>
@@ -63,11 +75,11 @@ MenuC15(s) ==
     ELSE (IF s.seq = 1 /\ MaxObjs >= 2 THEN {D("mk", "alice", 12, 0, "SymmetricKey", 1, 0, FALSE)} ELSE {})
          \cup UNION {
         (IF v >= 20
-         THEN {D("mod20", w, v, u, n, ci, c, hc) : n \in NamesAt(s, Names20), ci \in {1, 2}, c \in {1, 2}, hc \in BOOLEAN}
-              \cup {D("delcur", w, v, u, n, 0, c, FALSE) : n \in NamesAt(s, Names20), c \in {1, 2}}
+         THEN UNION {{D("mod20", w, v, u, n, ci, c, hc) : ci \in Cands(n), c \in Cands(n), hc \in BOOLEAN} : n \in NamesAt(s, Names20)}
+              \cup UNION {{D("delcur", w, v, u, n, 0, c, FALSE) : c \in Cands(n)} : n \in NamesAt(s, Names20)}
               \cup {D("delref", w, v, u, n, 0, 0, FALSE) : n \in NamesAt(s, Names1x \cup {""})}
-              \cup {D("set", w, v, u, n, 0, c, FALSE) : n \in NamesAt(s, Names20), c \in {1, 2}}
-         ELSE {D("mod1x", w, v, u, n, i, c, FALSE) : n \in NamesAt(s, Names1x), i \in {-1, 0, 1, 2, -2}, c \in {1, 2}}
+              \cup UNION {{D("set", w, v, u, n, 0, c, FALSE) : c \in Cands(n)} : n \in NamesAt(s, Names20)}
+         ELSE UNION {{D("mod1x", w, v, u, n, i, c, FALSE) : i \in {-1, 0, 1, 2, -2}, c \in Cands(n)} : n \in NamesAt(s, Names1x)}
               \cup {D("del1x", w, v, u, n, i, 0, FALSE) : n \in NamesAt(s, Names1x \cup {""}), i \in {-99, 0, 1, 2, -1}})
         : w \in {"alice", "bob"}, v \in Vers, u \in {1, 2}}
 
